@@ -299,4 +299,69 @@ func runC05(r *Run) {
 		srcs["(page)"] = pageSrc
 		r.Case("includes", coq, obs, map[string]any{"files": srcs}, map[string]string{}, nontrivial)
 	}
+	c05LoopLeak(r)
+}
+
+// includes inside loops: what an include is given lives in the component instance only; after the loop
+// neither the loop variable nor any prop name is bound in the includer, and an includer variable of the
+// same name is what it was (direct oracle: the expectation is written down, not modelled)
+func c05LoopLeak(r *Run) {
+	files := map[string]string{
+		"row.vuego":   `<i data-row="1">{{ item }}{{ item.name }}{{ label }}{{ title }}</i>`,
+		"needs.vuego": `<template :required="item"><b>needs:{{ item }}</b></template>`,
+		"needsl.vuego": `<template :required="label"><b>needs:{{ label }}</b></template>`,
+	}
+	loops := []string{
+		`<template v-for="item in items"><template include="row.vuego" PROPS></template></template>`,
+		`<template v-for="item in items" include="row.vuego" PROPS></template>`,
+		`<ul><li v-for="item in items"><template include="row.vuego" PROPS></template></li></ul>`,
+		`<div v-for="(i, item) in items"><p><template include="row.vuego" PROPS></template></p></div>`,
+		`<template v-for="g in groups"><template v-for="item in g"><template include="row.vuego" PROPS></template></template></template>`,
+	}
+	propSets := []string{`:item="item"`, `:item="item" :label="item.name"`, `:label="item.name" :title="item.name"`, `item="{{ item.name }}" :label="item"`, `:title="item.name"`}
+	for li, loop := range loops {
+		for pi, props := range propSets {
+			body := strings.ReplaceAll(loop, "PROPS", props)
+			probe := `<u data-after="1">[{{ item }}|{{ item.name }}|{{ label }}|{{ title }}]</u>`
+			m := fstest.MapFS{}
+			for k, v := range files {
+				m[k] = &fstest.MapFile{Data: []byte(v)}
+			}
+			data := map[string]any{"title": "T", "items": []any{map[string]any{"name": "one"}, map[string]any{"name": "two"}},
+				"groups": []any{[]any{map[string]any{"name": "one"}}, []any{map[string]any{"name": "two"}}}}
+			render := func(src string) (string, error) {
+				var buf bytes.Buffer
+				var err error
+				func() {
+					defer func() {
+						if x := recover(); x != nil {
+							err = fmt.Errorf("PANIC %v", x)
+						}
+					}()
+					err = vuego.NewFS(m).Fill(data).RenderString(context.Background(), &buf, src)
+				}()
+				return buf.String(), err
+			}
+			desc := map[string]any{"template": body + probe, "files": files}
+			sig := map[string]string{"oracle": "loop-include-no-leak", "loop": fmt.Sprint(li), "props": fmt.Sprint(pi)}
+			r.Eval(fmt.Sprintf("loopleak:%d:%d", li, pi), true, nil)
+			r.Count("stream:loop-include-no-leak(oracle only)")
+			out, err := render(body + probe)
+			if err != nil {
+				r.Fail("a loop of includes fails to render", sig, map[string]any{"case": desc, "err": err.Error()})
+				continue
+			}
+			flat := strings.Join(strings.Fields(out), "")
+			if !strings.Contains(flat, "[|||T]") {
+				r.Fail("a name given to an include inside a loop is bound in the includer after the loop", sig, map[string]any{"case": desc, "output": out, "expected_probe": "[|||T]"})
+			}
+			for _, need := range []string{"needs.vuego", "needsl.vuego"} {
+				_, err2 := render(body + `<template include="` + need + `"></template>`)
+				if err2 == nil || !c05ReqErr.MatchString(err2.Error()) {
+					sig2 := map[string]string{"oracle": "loop-include-no-leak", "loop": fmt.Sprint(li), "props": fmt.Sprint(pi), "what": "required"}
+					r.Fail("a component that requires a name is satisfied by a name given to an earlier include inside a loop", sig2, map[string]any{"case": desc, "then": need, "err": fmt.Sprint(err2)})
+				}
+			}
+		}
+	}
 }
